@@ -25,9 +25,12 @@ def build(spec, log, auto=None):
         params = ["qq"] if spec["rename"] else [inp]
         fn = make_function(name, params, {}, body, {"_LOG": log, "_AUTO": auto})
         outs = (f"r{k}", f"r{k}b") if (spec["multi"] and k == 0) else f"r{k}"
-        node = InterruptNode(fn, name=name, output_name=outs, rename_inputs=({"qq": inp} if spec["rename"] else None))
+        node = InterruptNode(fn, name=name, output_name=outs, rename_inputs=({"qq": inp} if spec["rename"] else None), emit=(f"sig{k}" if spec.get("emit") else None))
         nodes.append(node)
         nodes.append(tagged_node(f"step{k}", [f"r{k}"], [f"d{k + 1}"], log))
+        if spec.get("emit"):
+            # a node ordered (not fed) by the interrupt: it runs once the interrupt has been passed, however it was passed
+            nodes.append(tagged_node(f"after{k}", ["d0"], [f"w{k}"], log, wait_for=(f"sig{k}",)))
     random.Random(spec["order_seed"]).shuffle(nodes)
     g = Graph(nodes, name="flow")
     for d in range(spec["depth"]):
@@ -101,6 +104,13 @@ def run(tier, seed, functions):
         spec = {"n": k, "multi": rng.random() < 0.3, "rename": rng.random() < 0.3, "side": rng.random() < 0.6, "side_dep": rng.choice(["x", "d0", "d0"]), "depth": rng.choice([0, 0, 0, 1, 2]), "order_seed": rng.randrange(1000),
                 "answers": [rng.choice(ANSWERS) for _ in range(k)]}
         check_spec(spec, res)
+    # systematic part (independent of the dice above): interrupts that also EMIT an ordering signal awaited by another node
+    for k in (1, 2, 3):
+        for multi in (False, True):
+            for rename in (False, True):
+                for order_seed in (1, 2, 3):
+                    check_spec({"n": k, "multi": multi, "rename": rename, "side": False, "side_dep": "x", "depth": 0, "order_seed": order_seed, "answers": [ANSWERS[(j + order_seed) % len(ANSWERS)] for j in range(k)],
+                                "emit": True}, res)
     return res
 
 
